@@ -158,6 +158,8 @@ type Exec struct {
 	dry      int
 	unsupported []string
 	modCollect *[]*LVal
+	wfDepth int
+	wfDeep bool
 	curGhost string
 	ghostDepth int
 	rootParams []Term
@@ -378,10 +380,35 @@ func (x *Exec) wf(st *State, t Term, typ types.Type) {
 	case *types.Slice:
 		if !isLiteral(t) {
 			x.vc.assert(Term{fmt.Sprintf("(and (<= 0 (s-arr %[1]s)) (= 0 (s-off %[1]s)) (<= 0 (s-len %[1]s)) (<= (s-len %[1]s) (s-cap %[1]s)) (<= (s-cap %[1]s) 9223372036854775807) (=> (= (s-arr %[1]s) 0) (= (s-cap %[1]s) 0)))", t.S), SBool})
+			if st != nil {
+				x.vc.assert(le(sArr(t), st.top))
+			}
 		}
 	case *types.Pointer, *types.Map:
 		if !isLiteral(t) {
 			x.vc.assert(le(intLit(0), t))
+			if st != nil {
+				x.vc.assert(le(t, st.top))
+			}
+		}
+	case *types.Interface:
+		if !isLiteral(t) && st != nil {
+			// a reference carried by an interface value refers to an existing object
+			x.vc.declareFun("isref", []Sort{SInt}, SBool)
+			x.vc.assert(implies(app(SBool, "isref", iType(t)), and(le(intLit(0), iVal(t)), le(iVal(t), st.top))))
+		}
+	case *types.Struct:
+		// references held in fields (by value) of a struct value (parameters and fresh results only)
+		if !isLiteral(t) && st != nil && x.wfDeep && x.wfDepth < 3 {
+			x.wfDepth++
+			si := x.vc.structInfoOf(typ)
+			for i := 0; i < u.NumFields(); i++ {
+				switch underlying(u.Field(i).Type()).(type) {
+				case *types.Pointer, *types.Map, *types.Interface, *types.Slice, *types.Struct:
+					x.wf(st, x.vc.field(si, t, i), u.Field(i).Type())
+				}
+			}
+			x.wfDepth--
 		}
 	}
 }
